@@ -161,7 +161,12 @@ func getSuites(proofs []map[string]interface{}, opts *embeddedProofCheckOpts) ([
 
 func getNonce(proof map[string]interface{}) ([]byte, error) {
 	if nonce, ok := proof["nonce"]; ok {
-		n, err := base64.StdEncoding.DecodeString(nonce.(string))
+		nonceStr, isString := nonce.(string)
+		if !isString {
+			return nil, errors.New("proof nonce is not a string")
+		}
+
+		n, err := base64.StdEncoding.DecodeString(nonceStr)
 		if err != nil {
 			return nil, err
 		}
